@@ -873,11 +873,174 @@ pub fn avar2_extremes(run: &Run) {
     run.observe_many(&all.into_inner().unwrap(), &non.into_inner().unwrap());
 }
 
+
+// ---------------------------------------------------------------------------
+// (g) HVAR and VVAR accessor families at the read-fonts level: every accessor must resolve the glyph
+// through ITS OWN optional DeltaSetIndexMap. Each accessor has its own rows with distinct deltas; every
+// subset of the optional maps present/absent; full and truncated maps; glyph ids within and beyond
+// each map; deltas against delta x tent in exact integers.
+// ---------------------------------------------------------------------------
+
+const MV_GLYPHS: usize = 6;
+
+/// delta of accessor k for glyph g at the region peak: all distinct
+fn mv_delta(k: usize, g: usize) -> i32 {
+    let v = (k as i32 + 1) * 100 + g as i32 * 7 + 1;
+    if (k + g) % 2 == 0 {
+        v
+    } else {
+        -v
+    }
+}
+
+/// returns Err((identity, details)) on the first wrong answer, Ok(digest, queries) otherwise
+fn check_metric_var_table(vertical: bool, present: u32, truncated: bool) -> Result<(u64, u64), (String, String)> {
+    use read_fonts::FontRead;
+    let names: &[&str] = if vertical { &["advance_height_delta", "tsb_delta", "bsb_delta", "v_org_delta"] } else { &["advance_width_delta", "lsb_delta", "rsb_delta"] };
+    let table = if vertical { "Vvar" } else { "Hvar" };
+    let na = names.len();
+    let region = VariationRegion::new(vec![RegionAxisCoordinates::new(f214(0), f214(ONE), f214(ONE))]);
+    // implicit-index builder: one sub-table, rows in insertion order; the advance rows come first so that
+    // an absent advance map (implicit index = glyph id) addresses them
+    let mut sb = VariationStoreBuilder::new_with_implicit_indices(1);
+    let mut row_delta: Vec<i32> = vec![];
+    let mut ids: Vec<Vec<u32>> = vec![];
+    for k in 0..na {
+        let mut v = vec![];
+        for g in 0..MV_GLYPHS {
+            v.push(sb.add_deltas(vec![(region.clone(), mv_delta(k, g))]));
+            row_delta.push(mv_delta(k, g));
+        }
+        ids.push(v);
+    }
+    let (store, remap) = sb.build();
+    let map_len = if truncated { 3 } else { MV_GLYPHS };
+    let maps: Vec<Option<DeltaSetIndexMap>> = (0..na)
+        .map(|k| {
+            if present >> k & 1 == 1 {
+                Some(ids[k][..map_len].iter().map(|id| u32::from(remap.get(*id).expect("id"))).collect())
+            } else {
+                None
+            }
+        })
+        .collect();
+    let bytes = if vertical {
+        write_fonts::dump_table(&write_fonts::tables::vvar::Vvar::new(store, maps[0].clone(), maps[1].clone(), maps[2].clone(), maps[3].clone()))
+    } else {
+        write_fonts::dump_table(&write_fonts::tables::hvar::Hvar::new(store, maps[0].clone(), maps[1].clone(), maps[2].clone()))
+    }
+    .map_err(|e| (format!("harness: {table} does not compile"), format!("{e:?}")))?;
+    let data = read_fonts::FontData::new(&bytes);
+    let hv = if vertical { None } else { Some(read_fonts::tables::hvar::Hvar::read(data).map_err(|e| ("harness: Hvar does not parse".to_string(), format!("{e}")))?) };
+    let vv = if vertical { Some(read_fonts::tables::vvar::Vvar::read(data).map_err(|e| ("harness: Vvar does not parse".to_string(), format!("{e}")))?) } else { None };
+    let mut h = Fnv::new();
+    let mut n = 0u64;
+    for cs in [vec![], vec![0i16], vec![ONE / 4], vec![ONE / 2], vec![ONE], vec![-ONE]] {
+        let coords: Vec<F2Dot14> = cs.iter().map(|c| f214(*c)).collect();
+        for gid in 0..MV_GLYPHS + 2 {
+            for k in 0..na {
+                n += 1;
+                let g = GlyphId::new(gid as u32);
+                let got: Result<Fixed, read_fonts::ReadError> = match (vertical, k) {
+                    (false, 0) => hv.as_ref().unwrap().advance_width_delta(g, &coords),
+                    (false, 1) => hv.as_ref().unwrap().lsb_delta(g, &coords),
+                    (false, _) => hv.as_ref().unwrap().rsb_delta(g, &coords),
+                    (true, 0) => vv.as_ref().unwrap().advance_height_delta(g, &coords),
+                    (true, 1) => vv.as_ref().unwrap().tsb_delta(g, &coords),
+                    (true, 2) => vv.as_ref().unwrap().bsb_delta(g, &coords),
+                    (true, _) => vv.as_ref().unwrap().v_org_delta(g, &coords),
+                };
+                // expected: None = an error (no map for a non-advance accessor), Some(delta)
+                let peak: Option<Option<i32>> = if cs.is_empty() {
+                    Some(Some(0)) // no coordinates: always zero
+                } else if present >> k & 1 == 1 {
+                    Some(Some(mv_delta(k, gid.min(map_len - 1))))
+                } else if k == 0 {
+                    // implicit index (0, glyph id): the row with that number, whatever it belongs to
+                    if gid < row_delta.len() {
+                        Some(Some(row_delta[gid]))
+                    } else {
+                        None // past the rows: not judged
+                    }
+                } else {
+                    Some(None)
+                };
+                let Some(peak) = peak else { continue };
+                let c = cs.first().copied().unwrap_or(0);
+                let exp: Option<i32> = peak.map(|d| if cs.is_empty() || c <= 0 { 0 } else { round_half_up(d as i64 * c as i64, 16384) as i32 });
+                let ok = match (&got, exp) {
+                    (Ok(f), Some(e)) => f.to_bits() as i64 == (e as i64) << 16,
+                    (Err(_), None) => true,
+                    _ => false,
+                };
+                if !ok {
+                    return Err((
+                        format!("{table}::{} resolves the wrong delta set", names[k]),
+                        format!(
+                            "maps present {:?} ({}), glyph {gid}, coords {:?}: got {:?}, expected {:?} (this accessor's row delta at peak: {:?})",
+                            (0..na).filter(|j| present >> j & 1 == 1).map(|j| names[j]).collect::<Vec<_>>(),
+                            if truncated { "3 entries each" } else { "one entry per glyph" },
+                            cs,
+                            got.as_ref().map(|f| f.to_f64()).map_err(|e| e.to_string()),
+                            exp,
+                            peak
+                        ),
+                    ));
+                }
+                h.i64(got.map(|f| f.to_bits() as i64).unwrap_or(i64::MIN));
+            }
+        }
+    }
+    Ok((h.finish(), n))
+}
+
+pub fn metric_var_tables(run: &Run) {
+    run.bound(
+        "g.hvar_vvar_accessors",
+        json!({"tables": {"Hvar": ["advance_width_delta", "lsb_delta", "rsb_delta"], "Vvar": ["advance_height_delta", "tsb_delta", "bsb_delta", "v_org_delta"]}, "optional_maps": "every subset present/absent",
+               "map_shapes": ["one entry per glyph", "truncated to 3 entries"], "glyphs": MV_GLYPHS, "glyph_ids": "0..=glyphs+1", "coords_f2dot14_bits": [[], [0], [ONE / 4], [ONE / 2], [ONE], [-ONE]],
+               "rows": "one row per (accessor, glyph), all deltas distinct"}),
+    );
+    let mut all = HashSet::new();
+    let mut n = 0u64;
+    for vertical in [false, true] {
+        let na = if vertical { 4 } else { 3 };
+        for present in 0..(1u32 << na) {
+            for truncated in [false, true] {
+                let case = json!({"kind":"metric_var_table","vertical":vertical,"present":present,"truncated":truncated});
+                match guard(|| check_metric_var_table(vertical, present, truncated)) {
+                    Ok(Ok((d, q))) => {
+                        n += q;
+                        all.insert(digest_of(&("mv", vertical, present, truncated, d)));
+                    }
+                    Ok(Err((id, details))) => {
+                        if id.starts_with("harness") {
+                            run.machinery_error(&format!("{id}: {details}"));
+                        } else {
+                            run.violation(&id, &details, case)
+                        }
+                    }
+                    Err(p) => run.violation(&format!("HVAR/VVAR accessor panic: {} in {}", p.kind(), p.site()), &p.message, case),
+                }
+            }
+        }
+    }
+    run.evals(n);
+    run.trans(n);
+    run.count("g.accessor_queries", n);
+    run.count("g.tables", 2 * (8 + 16));
+    run.observe_many(&all, &all);
+}
+
 pub fn replay(run: &Run, case: &Value) {
     match case["kind"].as_str().unwrap_or("") {
         "metrics_gvar" => gvar_metrics(run),
         "norm_two_axes" => multi_axis(run),
         "metrics_mvar" => mvar_metrics(run),
+        "metric_var_table" => match check_metric_var_table(case["vertical"].as_bool().unwrap_or(false), case["present"].as_u64().unwrap_or(0) as u32, case["truncated"].as_bool().unwrap_or(false)) {
+            Ok(_) => println!("replay: every accessor answers from its own map"),
+            Err((id, d)) => run.violation(&id, &d, case.clone()),
+        },
         "norm_avar2_extremes" | "norm_avar2_fixture" => avar2_extremes(run),
         "index_map" => {
             let (ib, ob) = (case["inner_bits"].as_u64().unwrap_or(1) as u32, case["outer_bits"].as_u64().unwrap_or(1) as u32);
